@@ -250,6 +250,11 @@ impl<'m> MCTPSMBusContext<'m> {
         &self,
         packet: &'a [u8],
     ) -> Result<ControlDecodedPacketData<'a>, (MessageType, DecodeError)> {
+        // The SMBus header, transport header, message type and PEC must be present
+        if packet.len() < 10 {
+            return Err((MessageType::Invalid, DecodeError::Unknown));
+        }
+
         let (smbus_header, base_header, body_header) = self.get_smbus_headers(packet)?;
 
         let calculated_pec = pec(&packet[0..(packet.len() - 1)]);
@@ -364,6 +369,14 @@ impl<'m> MCTPSMBusContext<'m> {
         packet: &'a [u8],
         calculated_pec: u8,
     ) -> Result<ControlRawPacketData<'a, 'b>, (MessageType, DecodeError)> {
+        // The control message header and the PEC must be present
+        if packet.len() < 3 {
+            return Err((
+                MessageType::MCtpControl,
+                DecodeError::ControlMessage(ControlMessageError::InvalidRequestDataLength),
+            ));
+        }
+
         // Decode the header
         let mut control_message_header_buf: [u8; 2] = [0; 2];
         control_message_header_buf.copy_from_slice(&packet[0..2]);
@@ -378,6 +391,16 @@ impl<'m> MCTPSMBusContext<'m> {
                 }
                 0 => {
                     // Response
+                    if packet.len() < 4 {
+                        // There is no completion code
+                        return Err((
+                            MessageType::MCtpControl,
+                            DecodeError::ControlMessage(
+                                ControlMessageError::InvalidRequestDataLength,
+                            ),
+                        ));
+                    }
+
                     if packet[2] != CompletionCode::Success as u8 {
                         return Err((
                             MessageType::MCtpControl,
